@@ -62,6 +62,7 @@ let to_sem = function
   | L [A "failif"; s] -> SFailIf (to_str s)
   | L [A "raiseif"; s; x] -> SRaiseIf (to_str s, to_nat x)
   | L [A "const"; v] -> SConst (to_value v)
+  | L [A "failsize"; n] -> SFailSize (to_nat n)
   | _ -> failwith "sem"
 
 let handle = function
